@@ -98,7 +98,7 @@ func (g *gen) simple(cx gctx) *Stmt {
 		if len(all) > 0 {
 			return &Stmt{K: "leave", L: all[g.r.Intn(len(all))]}
 		}
-	case 10:
+	case 10, 11:
 		if len(cx.loops) > 0 {
 			return &Stmt{K: "iter", L: cx.loops[g.r.Intn(len(cx.loops))]}
 		}
